@@ -34,6 +34,8 @@ def run(ctx):
     good_list(ctx, g)
     orbifold_key(ctx, g)
     canonical_assignment(ctx, g)
+    generator_decisions(ctx, g)
+    window_operands(ctx, g)
     ctx.clauses.append("the generator's private orientation / orbit routines look at every operation 0..=dim() (T4)")
     gb = [b for d, b in sorted(ctx.facts.bodies.items()) if d.startswith(M) and "{closure" not in d]
     ctx.scan(gb)
@@ -247,6 +249,254 @@ def canonical_assignment(ctx, g):
                     if len(f_) != 1 or len(t_) != 1 or not holds_at(f_[0], True) or holds_at(t_[0], True):
                         bad = "false is not returned exactly when some ws > vs, true otherwise"
     ctx.ob("T9-canonical-assignment", cb.name, "ws > vs", "ok" if not bad else "violation", "for every orbit permutation m: ws[i] = vs[m[i]] over all orbits; false iff ws > vs" if not bad else bad)
+
+
+def generator_decisions(ctx, g):
+    """the D-symbol generator as decision tables (path conditions evaluated over the outcomes of the opaque tests):
+    extract: a symbol is emitted iff  min <= curv <= max  and ( base_curvature < 0  or ( all orbits assigned and is_good and is_canonical ) );
+    children: none iff all orbits are assigned or base_curvature < 0; a candidate is pushed iff its curvature is >= min, for negative curvature only
+    if minimally hyperbolic; a non-negative candidate continues with the NEXT orbit (next + 1);
+    compute_vmins: r = 1 -> 3, r = 2 -> 2, r >= 3 -> 1 (the least v with r * v >= 3);
+    new: orbit permutations are computed exactly for base_curvature >= 0; the lower bound is max(geometry minimum, base_curvature if negative else -CURV_FAC);
+    is_weakly_oriented (generator's own): 2-colouring seeded at chamber 1 with sign 1; an unsigned neighbour gets the opposite sign and is queued; a signed
+    neighbour other than the chamber itself with the same sign answers false"""
+    ctx.clauses.append("generator decision tables: extract, children, compute_vmins, new, is_weakly_oriented (T4, path conditions evaluated)")
+    me_of = lambda b: ("param", 1, b.debug.get(1, ""))
+    b = ctx.body(BT + "extract")
+    me, st = me_of(b), ("param", 2, b.debug.get(2, ""))
+    somes = {bi for bi, si, s in b.assigns() if s["place"]["l"] == 0 and not s["place"]["p"] and strip(norm(b.rv_origin(s["rv"]), g))[1].endswith("Option::Some")}
+    somes |= {bi for bi, t in b.calls("PartialDSym::from_fields")}
+    bad = None
+    F = lambda o, n: ("field", o, n)
+    def val(curv, mn, mx, base, nxt, cnt, good, canon):
+        def f(y):
+            if y == F(st, "curv"):
+                return curv
+            if y == F(me, "min_curvature"):
+                return mn
+            if y == F(me, "max_curvature"):
+                return mx
+            if y == F(me, "base_curvature"):
+                return base
+            if y == F(st, "next"):
+                return nxt
+            if y[0] == "call" and (y[1].endswith("orbit_count") or (y[1].endswith("::len") and contains(y, lambda z: z == F(me, "orbit_vmins")))):
+                return cnt
+            if y[0] == "call" and y[1].endswith("is_good"):
+                return good
+            if y[0] == "call" and y[1].endswith("is_canonical"):
+                return canon
+            return None
+        return f
+    import itertools
+    n = 0
+    # `let good = a && b && (c || (d && e && f))` is a bool local joined from several leaf blocks: its disjuncts (bool_join_disjuncts) are evaluated
+    gl = None
+    for bi in somes:
+        for x in b.facts_at(bi):
+            x = atom_norm(x, g)
+            if x[0] == "bool" and x[2] is True and strip(x[1])[0] == "local":
+                gl = strip(x[1])
+    disj = bool_join_disjuncts(b, gl[1], g) if gl is not None else []
+
+    def emitted(valuation):
+        for dbb, atoms in disj:
+            ok = True
+            for a in atoms:
+                if a[0] not in ("rel", "bool") or is_ovf_atom(a):
+                    continue
+                env = {}
+                for y in subterms(("agg", "x", tuple(x for x in a[1:] if isinstance(x, tuple)))):
+                    if isinstance(y, tuple) and y:
+                        v = valuation(y)
+                        if v is not None:
+                            env[y] = v
+                c = eval_atom_env(a, env)
+                if c is False:
+                    ok = False
+                    break
+            if ok:
+                return True
+        return False
+    if not disj:
+        bad = "the decision `good` of extract is not a joined bool"
+    for curv, base, nxt, good, canon in itertools.product((-5, 0, 9, 11), (-3, 2), (1, 2), (0, 1), (0, 1)):
+        if bad:
+            break
+        mn, mx, cnt = 0, 10, 2
+        want = (mn <= curv <= mx) and (base < 0 or (nxt >= cnt and good and canon))
+        r = emitted(val(curv, mn, mx, base, nxt, cnt, good, canon))
+        n += 1
+        if bool(r) != bool(want):
+            bad = bad or "curvature %d in [0, 10], base curvature %d, %s orbits assigned, is_good %s, is_canonical %s: a symbol is %s" % (
+                curv, base, "all" if nxt >= cnt else "not all", bool(good), bool(canon), "emitted" if r else "not emitted")
+    for curv, want in ((0, True), (10, True)):
+        if not bad and emitted(val(curv, 0, 10, -3, 2, 2, 1, 1)) != want:
+            bad = "a symbol whose curvature equals the %s bound of the window is not emitted" % ("lower" if curv == 0 else "upper")
+    ctx.ob("T4-generator-decisions", b.name, "extract", "ok" if not bad and somes else "violation", "%d combinations + window boundaries" % n if not bad and somes else (bad or "no Some answer found"))
+    b = ctx.body(BT + "children")
+    me, st = me_of(b), ("param", 2, b.debug.get(2, ""))
+    pushes = [(bi, strip(norm(b.origin(t["args"][1]), g))) for bi, t in b.calls("Vec::<T, A>::push")]
+    bad = None
+    if len(pushes) != 2:
+        bad = "%d candidate pushes" % len(pushes)
+    else:
+        curvs = {strip(v[2][1]) for bi, v in pushes if v[0] == "agg" and len(v[2]) == 3}
+        cl = list(curvs)[0] if len(curvs) == 1 else None
+        hyp = [bi for bi, v in pushes if is_call(strip(v[2][2]), "orbit_count") or contains(v[2][2], lambda z: isinstance(z, tuple) and z and z[0] == "call" and (z[1].endswith("orbit_count") or z[1].endswith("::len")))]
+        non = [(bi, v) for bi, v in pushes if bi not in hyp]
+        if cl is None or len(hyp) != 1 or len(non) != 1:
+            bad = "the two pushes are not (negative curvature: next = orbit_count) and (non-negative: next + 1) of one curvature value"
+        else:
+            nx = unov_deep(strip(non[0][1][2][2]))
+            if nx != ("binop", "Add", F(st, "next"), ("int", 1)):
+                bad = "a non-negative candidate does not continue with orbit next + 1: %s" % show(nx, 1)[:40]
+            def val2(n_, cnt, base, curv, mn, minhyp):
+                def f(y):
+                    if y == F(st, "next"):
+                        return n_
+                    if y[0] == "call" and (y[1].endswith("orbit_count") or (y[1].endswith("::len") and contains(y, lambda z: z == F(me, "orbit_vmins")))):
+                        return cnt
+                    if y == F(me, "base_curvature"):
+                        return base
+                    if y == cl:
+                        return curv
+                    if y == F(me, "min_curvature"):
+                        return mn
+                    if y[0] == "call" and y[1].endswith("is_minimally_hyperbolic"):
+                        return minhyp
+                    return None
+                return f
+            hp, np_ = set(hyp), {non[0][0]}
+            for n_, cnt, base, curv, mn, mh, want in ((2, 2, 5, 3, -9, 1, (False, False)), (0, 2, -1, 3, -9, 1, (False, False)), (0, 2, 5, 3, -9, 1, (False, True)), (0, 2, 5, 0, -9, 1, (False, True)),
+                                                      (0, 2, 5, -4, -9, 1, (True, False)), (0, 2, 5, -4, -9, 0, (False, False)), (0, 2, 5, -9, -9, 1, (True, False)), (0, 2, 5, -10, -9, 1, (False, False)), (1, 2, 0, 3, -9, 1, (False, True))):
+                r = reachable_sites(b, g, hp | np_, val2(n_, cnt, base, curv, mn, mh))
+                got = (bool(r & hp), bool(r & np_))
+                if not bad and got != want:
+                    bad = "orbit %d of %d, base curvature %d, candidate curvature %d (minimum %d), minimally hyperbolic %s: children %s" % (
+                        n_, cnt, base, curv, mn, bool(mh), "; ".join(n2 if g_ else "does not " + n2 for g_, w_, n2 in zip(got, want, ("push the hyperbolic candidate", "push the candidate for the next orbit")) if g_ != w_))
+    ctx.ob("T4-generator-decisions", b.name, "children", "ok" if not bad else "violation", "9 combinations" if not bad else bad)
+    vb = ctx.body(M + "compute_vmins")
+    stores = []
+    for bi, si, s in vb.assigns():
+        if [e["k"] for e in s["place"]["p"]] == ["deref"]:
+            stores.append(s["rv"])
+    bad = None
+    tab = {}
+    sw = [blk["term"] for bi, blk in vb.live_blocks() if blk["term"]["k"] == "switch" and len(blk["term"]["targets"]) >= 2 and not contains(norm(vb.origin(blk["term"]["discr"]), g), lambda z: z[0] == "discr")]
+    if len(sw) != 1:
+        bad = "the minimum is not one match on the orbit length"
+    else:
+        t_ = sw[0]
+        def arm(tgt):
+            cur, seen = tgt, set()
+            while cur is not None and cur not in seen:
+                seen.add(cur)
+                for s_ in vb.blocks[cur]["stmts"]:
+                    if s_["k"] == "assign" and not s_["place"]["p"] and s_["rv"]["k"] == "use" and s_["rv"]["op"]["k"] == "const" and "int" in s_["rv"]["op"]:
+                        return s_["rv"]["op"]["int"]
+                nx = vb.succ().get(cur, [])
+                cur = nx[0] if len(nx) == 1 else None
+            return None
+        arms = {v: arm(tg) for v, tg in t_["targets"]}
+        other = arm(t_["otherwise"])
+        for rv in (1, 2, 3, 6):
+            tab[rv] = arms.get(rv, other)
+        if tab != {1: 3, 2: 2, 3: 1, 6: 1}:
+            bad = "compute_vmins maps orbit lengths 1, 2, 3, 6 to %s; the least v with r * v >= 3 is 3, 2, 1, 1" % tab
+    ctx.ob("T4-generator-decisions", vb.name, "vmin(r)", "ok" if not bad else "violation", "r = 1, 2, 3, 6 -> 3, 2, 1, 1" if not bad else bad)
+    nb = ctx.body(M + "DSymBackTracking::new")
+    om = {bi for bi, t in nb.calls(exact=M + "orbit_maps")}
+    bad = None
+    base_l = [("local", l, nm) for l, nm in nb.debug.items() if nm == "base_curvature"]
+    bl = base_l[0] if base_l else None
+    if len(om) != 1 or bl is None:
+        bad = "not one orbit_maps computation on a base curvature"
+    else:
+        for bv, want in ((-1, False), (0, True), (4, True)):
+            r = reachable_sites(nb, g, om, lambda y, bv=bv: bv if y == bl else None)
+            if bool(r) != want:
+                bad = bad or "for base curvature %d the orbit permutations are %s (needed exactly when assignments are enumerated: base curvature >= 0)" % (bv, "computed" if r else "not computed")
+    ctx.ob("T4-generator-decisions", nb.name, "orbit_maps iff base_curvature >= 0", "ok" if not bad else "violation", "base curvature -1 / 0 / 4" if not bad else bad)
+    wb = ctx.body(M + "DSymBackTracking::is_weakly_oriented")
+    bad = None
+    stores = []
+    for bi, si, s in wb.assigns():
+        if [e["k"] for e in s["place"]["p"]] == ["deref"]:
+            tgt = strip(norm(wb.local_origin(s["place"]["l"]), g))
+            if is_call(tgt, "IndexMut::index_mut"):
+                stores.append((bi, strip(tgt[2][1]), strip(norm(wb.rv_origin(s["rv"]), g))))
+    seeds = [x for x in stores if eval_int(x[1]) == 1 and eval_int(x[2]) == 1]
+    ext = [x for x in stores if x not in seeds]
+    pb = [(bi, strip(norm(wb.origin(t["args"][1]), g))) for bi, t in wb.calls("VecDeque::<T, A>::push_back")]
+    falses = {bi for bi, si, s in wb.assigns() if s["place"]["l"] == 0 and not s["place"]["p"] and eval_int(strip(norm(wb.rv_origin(s["rv"]), g))) == 0}
+    if len(seeds) != 1 or not any(eval_int(v) == 1 for bi, v in pb):
+        bad = "the colouring is not seeded with sgn[1] = 1 and chamber 1 queued"
+    elif len(ext) != 1 or not falses or chamber_tables(ctx, "T4-chamber-table", wb, g, fill=0) != 1:
+        bad = "not one sign assignment / one `false` answer / one chamber table"
+    else:
+        eb, di, val_ = ext[0]
+        vv = unov_deep(val_)
+        okneg = (vv[0] == "unop" and vv[1] == "Neg") and as_index(strip(vv[2]))
+        d_ = strip(as_index(strip(vv[2]))[1]) if okneg else None
+        if not okneg:
+            bad = "an unsigned neighbour does not get the opposite sign -sgn[d]: %s" % show(val_, 1)[:40]
+        else:
+            def val3(sdi, sd, same):
+                def f(y):
+                    a = as_index(y)
+                    if a and strip(a[1]) == di:
+                        return sdi
+                    if a and strip(a[1]) == d_:
+                        return sd
+                    if y == di:
+                        return 4
+                    if y == d_:
+                        return 4 if same else 5
+                    return None
+                return f
+            for sdi, sd, same, want in ((0, 1, 0, (True, False)), (-1, 1, 0, (False, False)), (1, 1, 0, (False, True)), (1, 1, 1, (False, False))):
+                r = reachable_sites(wb, g, {eb} | falses, val3(sdi, sd, same))
+                got = (eb in r, bool(r & falses))
+                if got != want:
+                    bad = bad or "neighbour sign %d, own sign %d, neighbour %s the chamber itself: %s" % (sdi, sd, "is" if same else "is not",
+                          "; ".join(n2 if g_ else "does not " + n2 for g_, w_, n2 in zip(got, want, ("assign a sign", "answer false")) if g_ != w_))
+    ctx.ob("T4-generator-decisions", wb.name, "2-colouring", "ok" if not bad else "violation", "seed sgn[1] = 1; unsigned -> opposite sign; same sign on another chamber -> false" if not bad else bad)
+
+
+def window_operands(ctx, g):
+    """new(): the lower end of the curvature window is max(geometry minimum, X) with X = base_curvature exactly when that is negative (nothing below the
+    base can occur), else -CURV_FAC (implied by minimal hyperbolicity); is_good: an assignment of curvature <= 0 is good without looking at the list,
+    a positive one is looked up"""
+    nb = ctx.body(M + "DSymBackTracking::new")
+    bl = [("local", l, nm) for l, nm in nb.debug.items() if nm == "base_curvature"]
+    bad = None
+    mx = [(bi, [strip(norm(nb.origin(x), g)) for x in t["args"]]) for bi, t in nb.calls("Ord::max")]
+    if len(mx) != 1 or not bl or mx[0][1][1][0] != "local":
+        bad = "the lower bound is not geoms.min_curvature().max(<chosen operand>)"
+    else:
+        opl = mx[0][1][1]
+        tab = {}
+        for dbb, d in nb.all_defs_origins(opl[1]):
+            d = strip(norm(d, g))
+            fa = [atom_norm(x, g) for x in nb.facts_at(dbb) if atom_norm(x, g)[0] == "rel"]
+            for bv in (-1, 0, 5):
+                vals = [eval_atom_env(x, {bl[0]: bv}) for x in fa]
+                vals = [v for v in vals if v is not None]
+                if vals and all(vals):
+                    tab[bv] = "base" if d == bl[0] else eval_int(d) if eval_int(d) is not None else show(d, 1)[:20]
+        if not (tab.get(-1) == "base" and tab.get(0) == tab.get(5) and isinstance(tab.get(0), int) and tab.get(0) < 0):
+            bad = "the second operand of the lower bound is %s for base curvatures -1 / 0 / 5; it must be the base curvature exactly when negative, else -CURV_FAC" % tab
+    ctx.ob("T4-generator-decisions", nb.name, "min = max(geometry minimum, base if base < 0 else -CURV_FAC)", "ok" if not bad else "violation", "base curvature -1 / 0 / 5" if not bad else bad)
+    gb = ctx.body(M + "DSymBackTracking::is_good")
+    curv = ("param", 3, gb.debug.get(3, ""))
+    lookups = {bi for bi, t in gb.calls("::contains")} | {bi for bi, t in gb.calls("orbifold_symbol")}
+    bad = None
+    for cv, want in ((-3, False), (0, False), (1, True), (7, True)):
+        r = reachable_sites(gb, g, lookups, lambda y, cv=cv: cv if y == curv else None)
+        if bool(r) != want:
+            bad = bad or "an assignment of curvature %d is %s against the good-orbifold list (only positive curvature is)" % (cv, "looked up" if r else "not looked up")
+    ctx.ob("T4-generator-decisions", gb.name, "list consulted iff curv > 0", "ok" if not bad and lookups else "violation", "curvature -3 / 0 / 1 / 7" if not bad and lookups else (bad or "no lookup found"))
 
 
 def windows(ctx, g):
